@@ -567,6 +567,79 @@ func (c *recConn) SetReadDeadline(t time.Time) error  { return nil }
 func (c *recConn) SetWriteDeadline(t time.Time) error { return nil }
 func (c *recConn) Read(p []byte) (int, error)         { return 0, io.EOF }
 
+// timeoutErr is what an expired write deadline reports.
+type timeoutErr struct{}
+
+func (timeoutErr) Error() string   { return "i/o timeout" }
+func (timeoutErr) Timeout() bool   { return true }
+func (timeoutErr) Temporary() bool { return true }
+
+// cutConn accepts only the first `accept` bytes of its first write and reports a timeout for the rest;
+// later writes go through.
+type cutConn struct {
+	recConn
+	accept int
+}
+
+func (c *cutConn) Write(p []byte) (int, error) {
+	c.mu.Lock()
+	first := c.n == 0
+	c.n++
+	if first && c.accept < len(p) {
+		c.writes = append(c.writes, append([]byte(nil), p[:c.accept]...))
+		c.mu.Unlock()
+		return c.accept, timeoutErr{}
+	}
+	c.writes = append(c.writes, append([]byte(nil), p...))
+	c.mu.Unlock()
+	return len(p), nil
+}
+
+// headerAfterCutWrite: the first write is cut short by a write deadline after the whole header and k
+// payload bytes went out; the application extends the deadline and carries on with the rest of its
+// buffer, as one does with any short write. The peer must see the header once, then the payload.
+func headerAfterCutWrite(id string, seed uint64) runner.Result {
+	r := &payload.SplitMix{S: seed}
+	header := []string{"DRPC!!!1", "H", "0123456789abcdef"}[r.Intn(3)]
+	data := payload.Make(1, 0, 0, 0, 10+r.Intn(60))
+	k := r.Intn(len(data))
+	under := &cutConn{accept: len(header) + k}
+	hc := drpcmigrate.NewHeaderConn(under, header)
+	desc := fmt.Sprintf("header=%q first write of %d bytes cut after the header and %d payload bytes (timeout), then the rest", header, len(data), k)
+	n, err := hc.Write(data)
+	var fails []string
+	if err == nil || n != k {
+		fails = append(fails, fmt.Sprintf("the cut first Write returned (%d, %v), want (%d, timeout): counts must exclude the header", n, err, k))
+	}
+	rest := data[n:]
+	for len(rest) > 0 {
+		m, err := hc.Write(rest)
+		if err != nil {
+			fails = append(fails, "a later Write failed: "+err.Error())
+			break
+		}
+		rest = rest[m:]
+	}
+	more := payload.Make(1, 0, 0, 1, r.Intn(30))
+	hc.Write(more)
+	under.mu.Lock()
+	var wire []byte
+	for _, w := range under.writes {
+		wire = append(wire, w...)
+	}
+	under.mu.Unlock()
+	want := append(append([]byte(header), data...), more...)
+	if len(fails) == 0 && !bytes.Equal(wire, want) {
+		fails = append(fails, fmt.Sprintf("the peer received %d bytes %q..., want the header once and then the payload (%d bytes); the header occurs %d times", len(wire), clip(wire), len(want), bytes.Count(wire, []byte(header))))
+	}
+	if len(fails) > 0 {
+		return runner.Violation(id, "header:not-exactly-once-after-a-cut-first-write", desc+"\n"+strings.Join(fails, "\n"))
+	}
+	res := runner.Hold(id, desc, true)
+	res.Events = 3
+	return res
+}
+
 func headerScenario(id string, seed uint64) runner.Result {
 	r := &payload.SplitMix{S: seed}
 	header := []string{"DRPC!!!1", "H", "", "0123456789abcdef"}[r.Intn(4)]
@@ -687,6 +760,10 @@ func gen(tier string, seed uint64) []runner.Scenario {
 		out = append(out, runner.Scenario{ID: id, Run: func() runner.Result { return muxScenario(id, payload.Hash(seed, 0x16, uint64(i))) }})
 		id2 := fmt.Sprintf("header/%d", i)
 		out = append(out, runner.Scenario{ID: id2, Run: func() runner.Result { return headerScenario(id2, payload.Hash(seed, 0x161, uint64(i))) }})
+		if i%20 == 0 {
+			id3 := fmt.Sprintf("header-after-cut-write/%d", i)
+			out = append(out, runner.Scenario{ID: id3, Run: func() runner.Result { return headerAfterCutWrite(id3, payload.Hash(seed, 0x162, uint64(i))) }})
+		}
 	}
 	return out
 }
